@@ -489,13 +489,19 @@ func domList(d *domain.DB) []domEntry {
 		tr := it.TimeRange()
 		e := domEntry{S: int64(tr.Start), E: int64(tr.End)}
 		r, err := it.OpenReader(ctx)
+		var buf []byte
 		if err != nil {
-			e.D = "!"
+			e.D = "!open: " + errStr(err)
 		} else {
-			buf := make([]byte, int(it.Size()))
-			if len(buf) > 0 {
-				if _, err = r.ReadAt(buf, 0); err != nil {
-					e.D = "!"
+			if r.Size() > 1<<24 {
+				// a garbage pointer of a torn image: no file of a case is that large
+				e.D = "!read: size beyond any file"
+			} else {
+				buf = make([]byte, int(r.Size()))
+				if len(buf) > 0 {
+					if _, err = r.ReadAt(buf, 0); err != nil {
+						e.D = "!read: " + errStr(err)
+					}
 				}
 			}
 			if e.D == "" {
